@@ -158,7 +158,10 @@ package vanguard
 //@   ensures[C10] 0 <= o.contentLen && o.contentLen <= limitOf(o) ==> err == nil && limit == o.contentLen && grow
 //@   ensures[C10] err == nil ==> 0 <= limit && limit <= limitOf(o)
 
+// C09/C02: the compressed flag of an envelope is valid only on a stream that declared a compression
+// ("If the Compressed-Flag is set but Message-Encoding is not: INTERNAL", gRPC; same in Connect)
 //@ func (*operation).processRequestEnvelope
+//@   ensures[C09,C02,C01] err == nil && compressed ==> o.client.reqCompression != nil
 //@   requires validOp(o) && o.clientEnveloper != nil
 //@   ensures[C09,C10] err == nil ==> 0 <= msgLen && msgLen <= limitOf(o) && msgLen == be32(envBuf)
 //@   ensures[C09] err != nil ==> isConnErr(err) && (code(err) == 3 || code(err) == 8)
@@ -243,6 +246,7 @@ package vanguard
 //@ axiom errFinalDataAlreadyWritten != nil
 //@ axiom context.Canceled != nil
 //@ axiom errNotFound != nil
+//@ axiom errCompressedFlag != nil
 //@ axiom io.EOF != nil && io.ErrUnexpectedEOF != nil && !errIs(io.ErrUnexpectedEOF, io.EOF)
 
 //@ func (*responseWriter).flushHeaders
@@ -351,6 +355,8 @@ package vanguard
 //@   modifies w.initialized, w.writingEnvelope, w.remainingBytes, w.current, w.mustReleaseCurrent, w.err, $vanguard.limitWriter., owned(unbox(w.current, *limitWriter).buf), owned(w.rw.buf), #RWB
 
 //@ func (*envelopingWriter).handleEnvelopeWritten
+//@   atcall[C03,C09] (vanguard.envelopedProtocolHandler).encodeEnvelope: arg(1).compressed ==> w.rw.op.server.respCompression != nil
+//@   ensures[C09,C01] err == nil && w.currentIsTrailer && w.trailerIsCompressed ==> w.rw.op.server.respCompression != nil
 //@   ensures[C01,C09] err == nil && !w.currentIsTrailer && oneResponse(w.rw) ==> !w.rw.msgForwarded
 //@   ensures[C03] err == nil ==> w.rw.endWritten == old(w.rw.endWritten)
 //@   dispatch (io.Writer).Write: *limitWriter
@@ -547,6 +553,9 @@ package vanguard
 //@ |  && (w.err == nil && w.buffer != nil && w.expectingBytes >= 0 ==> blen(w.buffer) < w.expectingBytes)
 
 //@ func (*transformingWriter).Write
+// C09/C01: a response message or end frame flagged compressed is accepted only if the response declared a compression
+//@   ensures[C09,C01] w.err == nil && w.expectingBytes != -1 && !w.writingEnvelope && w.latestEnvelope.compressed ==> w.rw.op.server.respCompression != nil || old(w.latestEnvelope.compressed && !w.writingEnvelope)
+//@   loop 1 invariant[C09,C01] w.err == nil && !w.writingEnvelope && w.latestEnvelope.compressed ==> w.rw.op.server.respCompression != nil || old(w.latestEnvelope.compressed && !w.writingEnvelope)
 // C16: no complete message (a zero-length one included) is left in the buffer when Write returns
 //@   ensures[C16] w.err == nil && w.expectingBytes != -1 ==> blen(w.buffer) < w.expectingBytes
 //@   requires twRest(w)
@@ -707,6 +716,7 @@ package vanguard
 //@ |  && (r.envRemain > 0 ==> r.current != nil)
 
 //@ func (*envelopingReader).prepareNext
+//@   atcall[C02,C09] (vanguard.serverEnvelopedProtocolHandler).encodeEnvelope: arg(1).compressed ==> r.rw.op.client.reqCompression != nil
 //@   ensures[C09] err == nil && old(r.current) != nil && r.rw.op.clientEnveloper != nil && r.rw.op.serverEnveloper == nil ==> r.rw.op.methodConf.streamType % 2 == 1
 //@   ensures[C09] err == nil && r.rw.op.clientEnveloper != nil ==> typeIs(r.current, *io.LimitedReader) && unbox(r.current, *io.LimitedReader).N >= 0
 //@   opt conv
